@@ -102,3 +102,33 @@ def _compatible(c1: str, c2: str) -> bool:
 
 def _clip(s: str, n: int = 200) -> str:
     return s if len(s) <= n else s[:n - 3] + "..."
+
+
+# ---------------------------------------------------------------------------------------------
+# boolean functions
+
+
+def truth_function(model: Model, f: FuncInfo, normalise: bool = True):
+    """The truth value a function returns, as a boolean formula over its atoms:
+    OR over its returns of (path condition AND returned value).  -> (Flow, formula)"""
+    from .loopnorm import normalise_loops
+    g = FuncInfo(f.name, f.qname, normalise_loops(f.node), f.module, f.cls) if normalise else f
+    fl = flow_of(g, model)
+    pr = fl.cprinter
+    parts = []
+    for r in fl.returns:
+        cs = [pr._bool(e, pol) for e, pol in r.cond]
+        v = pr._bool(r.value, True) if r.value is not None else ("const", False)
+        parts.append(pr._mk("and", cs + [v]))
+    return fl, pr._mk("or", parts) if parts else ("const", False)
+
+
+def same_truth_function(model: Model, f: FuncInfo, spec_src: str, self_name: str = "self") -> tuple[bool, str]:
+    """Does `f` return the truth value of `spec_src` (an expression over `self`)?  -> (ok, readable form of f)"""
+    from .symflow import Printer, parse_expr
+    fl, got = truth_function(model, f)
+    sp = Printer(model, [self_name], {}, canonical=True)
+    want = sp._bool(parse_expr(spec_src))
+    t = sp._tables([got, want])
+    shown = fl.printer._show_bool(got)
+    return (t is not None and t[1][0] == t[1][1]), shown
